@@ -1,6 +1,7 @@
 import OdfProofs.TableOps6
 import OdfProofs.TableBulk
 import OdfModel.TableStep
+import OdfProofs.Transform2
 
 /-! One step and whole histories: the model refines the grid. -/
 namespace Odf.Table
@@ -64,6 +65,10 @@ theorem step_refines (t : Tbl) (h : Inv t) (hfit : GridFit (absT t)) (op : Op) (
   | setValues x y m =>
     obtain ⟨t', e, i, a⟩ := setValues_ok t h x y m
     exact ⟨t', e, a, fun _ => i⟩
+  | rstrip a =>
+    exact ⟨_, rfl, Odf.Transform.tblRstrip_refines _ t h, fun _ => Odf.Transform.tblRstrip_inv _ t h⟩
+  | transpose =>
+    exact ⟨_, rfl, Odf.Transform.tblTranspose_refines t, fun _ => Odf.Transform.tblTranspose_inv t⟩
 
 end Odf.Table
 
@@ -231,6 +236,8 @@ theorem fit_gstep (g : Grid) (hfit : GridFit g) (op : Op) : GridFit (gstep g op)
   | setValues x y m =>
     simp only [gstep, Grid.setValues]
     exact fit_setCells g hfit x y _
+  | rstrip a => exact Odf.Transform.fit_gridRstrip _ g hfit
+  | transpose => exact Odf.Transform.fit_transposeG g
 
 /-- **every history**: from any coherent table whose rows fit its columns, every finite
     sequence of valid operations succeeds, and what the table denotes is exactly what the same
